@@ -86,7 +86,10 @@ def scan_trusted(text):
     return res
 
 
-def run_verus(path, rlimit=None, extra=None, threads=None, timeout=1800):
+def run_verus(path, rlimit=None, extra=None, threads=None, timeout=None):
+    # wall limit of one Verus run. On the unchanged tree the slowest unit needs ~2 min; on a tree that breaks MANY obligations of one
+    # heavy function Verus re-solves the query once per reported error (U-MRG8 merge_modules: ~2 min per round, 10-12 rounds).
+    timeout = timeout or int(os.environ.get("VF_VERUS_TIMEOUT", "3600"))
     cmd = [VERUS, path, "--output-json", "--time-expanded", "--multiple-errors", "20", "--error-format=json"]
     if rlimit:
         cmd += ["--rlimit", str(rlimit)]
@@ -437,7 +440,7 @@ def _classify_main(res, u, m):
                 t = sp[0]["text"][0]
                 callee = t["text"][t["highlight_start"] - 1:t["highlight_end"] - 1].strip()[:60]
         name = "%s::%s::%s" % (res["unit"], fn, kind)
-        res["failures"].append({"obligation": name, "kind": kind, "function": fn, "where": where,
+        res["failures"].append({"obligation": name, "kind": kind, "function": fn, "where": where, "gen_line": ln,
                                 "detail": callee, "rendered": d.get("rendered", "")[:3000]})
     # A failed `assert` that lives in the TEMPLATE (a ghost proof step written for the shape the code had) is not an
     # obligation of the property: Verus assumes it afterwards, and if every contract-level obligation of that function
@@ -477,6 +480,48 @@ def _classify_main(res, u, m):
         if len(keep) != len(res["failures"]):
             res["failures"] = keep
             res["status"] = "undecided"
+    # a loop-carried local variable that the verified tree did not have (vf/closures.py LOOPVAR_KEY): no invariant of the template
+    # constrains it and Verus infers none, so an obligation behind that loop can fail although the code is right ("needs
+    # invariant"), e.g. a log checkpoint that is advanced together with the cursor checkpoint of the Sequence loop in
+    # parse_ifdata_item and used to truncate the log after the loop. Not a violation by itself; the bounded driver decides.
+    # (The rule is skipped when the committed baseline predates it.)
+    try:
+        base_all = _cl.load()
+        base_lc = base_all.get(_cl.LOOPVAR_KEY)
+    except Exception:
+        base_lc = None
+    if base_lc is not None:
+        ubase = base_lc.get(res["unit"], {})
+        newlv = {}
+        for f in u.functions:
+            if f["name"] not in ubase:
+                continue  # not known to the baseline (new unit / newly extracted item): judged as always
+            extra = sorted(set(f.get("loop_carried", [])) - set(ubase[f["name"]]))
+            if extra:
+                newlv[f["name"]] = extra
+        if newlv:
+            # Only obligations BEHIND the last assignment of such a variable (generated-file line order) and the function's
+            # postconditions are downgraded: what fails in front of / at the assignment (an invariant of the loop, an overflow in
+            # the assigned expression) is judged as always, so that a change which breaks the loop itself stays a violation.
+            last_asg = {}
+            for fname, names in newlv.items():
+                pat = re.compile(r"(?<![\w.])(%s)\s*(?:[-+*/%%|&^])?=(?![=>])" % "|".join(re.escape(x) for x in names))
+                for k, line in enumerate(text_lines):
+                    if k < len(u.linemap) and u.linemap[k] and u.linemap[k][0] == "repo" and u.linemap[k][3] == fname \
+                            and pat.search(line) and not re.search(r"\blet\b", line):
+                        last_asg[fname] = k + 1
+            keep = []
+            for f in res["failures"]:
+                fnm = f.get("function")
+                if fnm in newlv and fnm in last_asg and (f.get("kind") == "post" or (f.get("gen_line") or 0) > last_asg[fnm]):
+                    res["undecided"].append("obligation %s at %s fails in `%s`, whose loops now carry the variable(s) %s that the verified tree "
+                                            "did not have - no invariant constrains them (Verus infers none): needs invariant" % (
+                                                f["obligation"], f.get("where", ""), f["function"], ", ".join(newlv[f["function"]])))
+                else:
+                    keep.append(f)
+            if len(keep) != len(res["failures"]):
+                res["failures"] = keep
+                res["status"] = "undecided"
     # a rewrite that carries an ASSUMED or PROVED contract into the function (R11 outline with an assumed specification, R14/R19
     # closure contract, R15 slicing helper, R17 defunctionalisation) and whose source text is gone: the function is verified as
     # written, WITHOUT the contract the committed proof rests on (e.g. `stoplist.iter().find(..)` replaced by
